@@ -16,17 +16,22 @@ R3 = ('R3', 'player_move.chars().nth(4).unwrap()', '__verif_char_at(player_move,
 R4a = ('R4a', '(player_move[0..2]).parse().unwrap()', '__verif_square_at(player_move, 0)')
 R4b = ('R4b', '(player_move[2..4]).parse().unwrap()', '__verif_square_at(player_move, 2)')
 
-SPEC = r'''
+# bodies of the R3/R4 helpers: the SAME text is compiled into the Kani harness (kani/uci_harness.rs), where the harnesses call
+# these helpers on the real str/Point code; `check` refuses to run when the two texts differ
+CHAR_BODY = '{ s.chars().nth(n).unwrap() }'
+SQ_BODY = '{ (s[i..i + 2]).parse().unwrap() }'
+
+SPEC_T = r'''
 // ---- abstract results of the text operations make_move uses ----
 pub uninterp spec fn text_contains<P>(s: &str, p: P) -> bool;
 pub assume_specification<'a, P: core::str::pattern::Pattern>[ str::contains::<P> ](s: &'a str, p: P) -> (r: bool)
     ensures r == text_contains(s, p);
 pub uninterp spec fn text_char(s: &str, n: usize) -> char;
 #[verifier::external_body]
-fn __verif_char_at(s: &str, n: usize) -> (r: char) ensures r == text_char(s, n) { s.chars().nth(n).unwrap() }
+fn __verif_char_at(s: &str, n: usize) -> (r: char) ensures r == text_char(s, n) %(CHAR_BODY)s
 pub uninterp spec fn text_square_at(s: &str, i: usize) -> Point;
 #[verifier::external_body]
-fn __verif_square_at(s: &str, i: usize) -> (r: Point) ensures r == text_square_at(s, i) { (s[i..i + 2]).parse().unwrap() }
+fn __verif_square_at(s: &str, i: usize) -> (r: Point) ensures r == text_square_at(s, i) %(SQ_BODY)s
 
 // ---- the move a UCI string spells: [a-h][1-8][a-h][1-8]([qnbr])? ----
 pub uninterp spec fn tm_from(s: &str) -> Point;
@@ -167,5 +172,10 @@ def build(g):
     imp = s.find_impl(r'FromStr\s+for\s+Point')
     g.outside.append(s.s[imp[0]:imp[2]])
     g.copied.append({'item': 'impl FromStr for Point (outside verus!)', 'file': 'src/board.rs', 'line': s.line_of(imp[0])})
-    g.add(SPEC)
+    import os
+    kh = open(os.path.join(os.path.dirname(os.path.dirname(os.path.abspath(__file__))), 'kani', 'uci_harness.rs')).read()
+    from vlib.extract import LostAnchor
+    if ('fn __verif_char_at(s: &str, n: usize) -> char ' + CHAR_BODY) not in kh or ('fn __verif_square_at(s: &str, i: usize) -> Point ' + SQ_BODY) not in kh:
+        raise LostAnchor('R3/R4 helper bodies differ between contracts/ucimove.py and kani/uci_harness.rs')
+    g.add(SPEC_T.replace('%(CHAR_BODY)s', CHAR_BODY).replace('%(SQ_BODY)s', SQ_BODY))
     g.add(g.fn('uci', 'make_move', MM, rewrites=[R3, R4a, R4b], props=P))
